@@ -36,7 +36,7 @@ def run(chk: core.Check) -> None:
         case.get("op") == "Date roundtrip type" and case.get("decoded", "").startswith("datetime.datetime(") and case["decoded"].endswith(", 0, 0)")
     )
     chk.rule = (
-        "durations: boundary lattice around second/minute/hour/day carries of either sign + random; dates/datetimes: years 1..9999 "
+        "datetimes also as the same instant under 2 other offsets (equal for ==, different lexical form), encoded one after the other; durations: boundary lattice around second/minute/hour/day carries of either sign + random; dates/datetimes: years 1..9999 "
         "lattice x month ends x leap days x times x microseconds x offsets + random; colours: 256 values per channel on the axes + "
         "random + every CSS name; malformed near-miss stream for every decoder. non-trivial = carry boundary / negative / year<1000 / "
         "microseconds / offset / malformed; distinct by canonical input"
@@ -232,6 +232,15 @@ def run(chk: core.Check) -> None:
         if rng.random() < 0.5:
             variants.append(datetime(d.year, d.month, d.day, rng.randrange(24), rng.randrange(60), rng.randrange(60), rng.randrange(10**6),
                                      tzinfo=timezone(timedelta(minutes=rng.randrange(-1439, 1440))) if rng.random() < 0.5 else None))
+        # the same instant written with other offsets: equal for Python's ==, different lexical forms
+        for dt in list(variants):
+            if dt.tzinfo is not None and rng.random() < 0.6:
+                for z in rng.sample(tzs[1:], 2):
+                    try:
+                        variants.append(dt.astimezone(z))
+                        chk.count("datetime", "same instant, other offset")
+                    except (OverflowError, ValueError):
+                        pass
         for dt in variants:
             e = impl(DateTime.encode, dt)
             off = dt.utcoffset()
